@@ -9,7 +9,7 @@
   per-connection delivery guarantees (what a channel does with a message) are separate properties.
 
   Model: Renet/Conn.lean (`RenetClient`), Renet/Server.lean (`RenetServer`).
-  Vocabulary (Lemmas/ServerLemmas.lean):
+  Vocabulary (Lemmas/ServerLemmas.lean, namespace `RenetVerif.SL`):
     `Server.viewAt j r` / `Server.slotAt j r` – of a result `r`, client `j`'s connection afterwards (plus the output)
     `Res.outOf r`                              – of a result `r`, the output only
     `Conn.SendFrame ch`, `Conn.RecvFrame ch`   – all send / receive channels other than `ch` are unchanged
@@ -17,7 +17,7 @@
 -/
 import RenetVerif.Lemmas.ServerLemmas
 namespace RenetVerif.C11
-open RenetVerif
+open RenetVerif RenetVerif.SL
 
 /-! ### 4. Per-client frames of the server -/
 
@@ -83,10 +83,10 @@ theorem addressed_ops_local (s1 s2 : Server) (j : Nat) (h : SMap.find? s1.conns 
 
 /-- Outputs in closed form. -/
 theorem receive_output (s : Server) (i ch : Nat) :
-    (s.receiveMessage i ch).outOf =
+    Res.outOf (s.receiveMessage i ch) =
       match SMap.find? s.conns i with
       | none => .ok none
-      | some c => (c.receiveMessage ch).outOf := Server.receiveMessage_out s i ch
+      | some c => Res.outOf (c.receiveMessage ch) := Server.receiveMessage_out s i ch
 
 /-- Isolation of clients over whole runs: whatever sequence of client-addressed operations is executed
     for clients other than `j` (garbage or hostile packets from them, their disconnection, removal,
@@ -155,12 +155,12 @@ theorem receive_touches_one_channel (c c' : Conn) (ch : Nat) (out : Option Bytes
 theorem receive_reads_one_channel (c1 c2 : Conn) (ch : Nat) (hs : c1.isDisconnected = c2.isDisconnected)
     (h1 : SMap.find? c1.recvRel ch = SMap.find? c2.recvRel ch)
     (h2 : SMap.find? c1.recvUnrel ch = SMap.find? c2.recvUnrel ch) :
-    (c1.receiveMessage ch).outOf = (c2.receiveMessage ch).outOf := Conn.receiveMessage_local c1 c2 ch hs h1 h2
+    Res.outOf (c1.receiveMessage ch) = Res.outOf (c2.receiveMessage ch) := Conn.receiveMessage_local c1 c2 ch hs h1 h2
 
 /-- A data packet (any of the four kinds) addressed to channel `ch` changes receive channel `ch`, the
     pending acks and possibly the status; no other receive channel and nothing on the send side. -/
 theorem data_packet_touches_one_channel (c c' : Conn) (bytes : Bytes) (p : Packet) (ch : Nat)
-    (hp : Packet.fromBytes bytes = .ok p) (hch : p.dataChannel = some ch) (h : c.processPacket bytes = .ok c') :
+    (hp : Packet.fromBytes bytes = .ok p) (hch : Packet.dataChannel p = some ch) (h : c.processPacket bytes = .ok c') :
     (∀ ch', ch' ≠ ch → SMap.find? c'.recvRel ch' = SMap.find? c.recvRel ch' ∧
                        SMap.find? c'.recvUnrel ch' = SMap.find? c.recvUnrel ch') ∧
     (c'.sendRel = c.sendRel ∧ c'.sendUnrel = c.sendUnrel ∧ c'.sent = c.sent ∧ c'.packetSeq = c.packetSeq) ∧
@@ -183,7 +183,7 @@ theorem garbage_packet_only_disconnects (c : Conn) (bytes : Bytes) (e : SerErr)
     The proviso cannot be dropped, see `channel_error_kills_other_channels` below. -/
 theorem other_channel_cannot_interfere_partial (c c' : Conn) (ch ch' : Nat) (hne : ch ≠ ch')
     (hframe : Conn.RecvFrame ch' c c') (hstatus : c'.isDisconnected = c.isDisconnected) :
-    (c'.receiveMessage ch).outOf = (c.receiveMessage ch).outOf :=
+    Res.outOf (c'.receiveMessage ch) = Res.outOf (c.receiveMessage ch) :=
   Conn.receiveMessage_local c' c ch hstatus (hframe ch hne).1 (hframe ch hne).2
 
 /-! ### concrete instances -/
